@@ -1,9 +1,15 @@
 """C09 — task.Clock: real Clock/DelayedCall vs Lean model (tie) + a trace-walking property oracle.
 
-case = {"h": [item, …]}; item (times in ticks of 1/8 s, ids = creation index of the call):
-  ["adv", n] | ["pump", [n, …]]                      top level only
+case = {"h": [item, …], "u": unit?}; item (times in ticks, ids = creation index of the call):
+  ["adv", n] | ["pump", [n, …]]                      clock.advance(n) / clock.pump(one-shot iterable); at top level, or
+                                                     (re-entrantly) inside the script of a scheduled call
   ["cl", n, [item, …]]                               clock.callLater(n, f); f performs the nested items
   ["x", id] | ["r", id, n] | ["d", id, n] | ["look"]  cancel / reset(n) / delay(n) / getDelayedCalls()+active()
+"u" = what one tick is on the real Clock: absent = 1/8 s; an int e = 2.0**e s (e from -40 to 20: sub-nanosecond to
+days); "int" = Python ints (tick = 1 s, every argument an int).  A tick count is an integer below 2**53, so every value
+is an exactly representable float whatever the unit; the model works in ticks and is therefore the same for every unit.
+A history that starts with a huge ["adv", 2**k] puts the clock at an epoch-like time (large magnitude, small differences).
+Histories with a re-entrant advance/pump have no model counterpart (model_line -> None): they are judged by the oracle only.
 
 The model line also carries the model's evaluation of the domain predicates of the hypothesis-free time-order theorems
 (`NonNeg`, `Admissible`: lean/TwistedModel/Reactor/ClockDomain.lean); `compare` checks them against this file's own
@@ -16,15 +22,26 @@ from twisted.internet.task import Clock
 
 HEADLINE = "TwistedProps.C09.clock_runs_once_iff_not_cancelled"
 RULE = ("histories on a fresh Clock(): top-level callLater/cancel/reset/delay/look/advance/pump, every scheduled "
-        "callable carrying a nested script of the same operations (depth <= 4); times are small dyadic values "
+        "callable carrying a nested script of the same operations (depth <= 4); times are small tick counts "
         "chosen to collide (same-time groups, delay 0 from inside a call, reset onto now), a hostile stream adds "
         "negative delays/resets/advances and dangling/already-dead references; plus all histories of length <= 3 "
-        "(quick) / <= 4 (thorough) over a 14-letter alphabet; distinct = (event kinds seen, nesting depth, "
-        "#runs bucket, negative times?, same-time run groups?)")
+        "(quick) / <= 4 (thorough) over a 14-letter alphabet.  About a third of the random histories choose what a tick "
+        "is on the real Clock (2**-40 s … 2**20 s as floats, or Python ints; default 1/8 s) and about a sixth first move "
+        "the clock to an epoch-like time (2**20 … 2**50 ticks), so that absolute and relative tolerances, rounding and "
+        "int/float paths show; 300 (quick) / 6000 (thorough) further histories let running calls advance/pump the clock "
+        "re-entrantly and then schedule or move calls onto the new `now` (judged by the oracle only); the callable's "
+        "arguments are passed positionally, by keyword or both; distinct = (event kinds seen, nesting depth, "
+        "#runs bucket, negative times?, same-time run groups?, unit, epoch offset?, re-entrant advance?)")
 ASSUMES = [
     "callables scheduled on the Clock return normally (an exception leaves advance() with due calls unrun — Clock does not catch)",
-    "callables do not call Clock.advance/pump re-entrantly (not in the property's operation list; not modelled)",
-    "times are dyadic floats of small magnitude, so float +,-,<,<= are exact (asserted per observation)",
+    "a callable that calls Clock.advance/pump re-entrantly is outside the Lean model (its scripts never advance the clock) "
+    "and outside the theorems; such histories are run on the real Clock and judged by the trace oracle alone, with the "
+    "same obligations for the inner advance as for a top-level one (no early run, min-first, nothing due left pending "
+    "when it returns, exactly-once, same-time creation order, getDelayedCalls)",
+    "times are dyadic floats whose tick count stays below 2**53 (any power-of-two unit from 2**-40 s to 2**20 s, or ints), "
+    "so float +,-,<,<= are exact (asserted per observation: a reported time that is not a whole number of ticks fails "
+    "the case); non-dyadic values such as 0.1, where Python's own rounding decides which advance reaches a call, are "
+    "not generated; the model computes in integer ticks and is the same for every unit",
     "the time-order clause is proved with no hypothesis on the execution for histories in which every callLater delay, "
     "reset/delay argument and advance/pump amount is >= 0 (run_order_nondecreasing_nonneg, via causal_of_nonneg) and, more "
     "generally, when negative delay() arguments leave the call at or after seconds() (run_order_nondecreasing_admissible); "
@@ -43,7 +60,9 @@ MANIFEST = {
             "negative delay() arguments that keep the call at or after seconds(), and for causal histories in general; "
             "a negative-delay counterexample shows the restriction is needed), same-time never-rescheduled calls run in creation "
             "order; the model (object store + "
-            "reference list + stable sort, as in task.py/base.py) is tied to the real Clock by differential runs of whole histories.",
+            "reference list + stable sort, as in task.py/base.py) is tied to the real Clock by differential runs of whole histories, "
+            "in several time units (sub-nanosecond to days, ints) and at epoch-like clock times; histories with a re-entrant "
+            "advance/pump from inside a running call are outside the model and the theorems and are judged by the trace oracle only.",
     "note": "trusts Lean kernel, the hand-written model of Clock/DelayedCall (differentially tied), stability of list.sort, float exactness on dyadic inputs",
     "technique": "Lean 4 proof (state invariants by induction over scripts, loop fuel and histories; a parameter-guarded "
                  "version of that induction discharges the causality hypothesis on non-negative/admissible histories) + "
@@ -57,9 +76,18 @@ TICK = 0.125
 # ------------------------------------------------------------------------------------------
 # real implementation
 
-def _tick(x):
-    v = x / TICK
-    assert v == int(v), f"inexact time {x!r}"
+def _unit(case):
+    u = case.get("u")
+    if u is None:
+        return TICK
+    if u == "int":
+        return 1
+    return 2.0 ** u
+
+
+def _tick(x, unit=TICK):
+    v = x / unit
+    assert v == int(v) and abs(v) < 2 ** 53 and int(v) * unit == x, f"inexact time {x!r}"
     return int(v)
 
 
@@ -67,12 +95,25 @@ def _ids(l):
     return ",".join(str(i) for i in sorted(l)) if l else "-"
 
 
+class _Abort(BaseException):
+    """raised by the scheduled callable itself to leave advance(): the trace so far already exhibits a violation"""
+
+
 def run_impl(case):
     clock = Clock()
-    created, index, out = [], {}, []
+    created, index, out, fired = [], {}, [], set()
+    U = _unit(case)
+
+    def _tick(x):
+        return globals()["_tick"](x, U)
 
     def fire(i, body):
         out.append(f"({i}@{_tick(created[i].getTime())}/{_tick(clock.seconds())}")
+        if i in fired or len(out) > 200000:
+            # a second run of the same call (or a runaway loop): stop here — with re-entrant advances a scheduler that
+            # re-runs calls can recurse exponentially; the oracle rejects the trace at this very event
+            raise _Abort()
+        fired.add(i)
         for op in body:
             do_op(op)
         out.append(f"){i}")
@@ -96,16 +137,22 @@ def run_impl(case):
         k = op[0]
         if k == "cl":
             i = len(created)
-            dc = clock.callLater(op[1] * TICK, fire, i, op[2])
+            # the callable's arguments travel positionally, by keyword, or both (DelayedCall.args / .kw)
+            if i % 3 == 0:
+                dc = clock.callLater(op[1] * U, fire, i, op[2])
+            elif i % 3 == 1:
+                dc = clock.callLater(op[1] * U, fire, i, body=op[2])
+            else:
+                dc = clock.callLater(op[1] * U, fire, i=i, body=op[2])
             created.append(dc)
             index[id(dc)] = i
             out.append(f"+{i}@{_tick(dc.getTime())}")
         elif k == "x":
             guarded(op[1], lambda dc: dc.cancel(), lambda dc: f"x{op[1]}")
         elif k == "r":
-            guarded(op[1], lambda dc: dc.reset(op[2] * TICK), lambda dc: f"r{op[1]}@{_tick(dc.getTime())}")
+            guarded(op[1], lambda dc: dc.reset(op[2] * U), lambda dc: f"r{op[1]}@{_tick(dc.getTime())}")
         elif k == "d":
-            guarded(op[1], lambda dc: dc.delay(op[2] * TICK), lambda dc: f"d{op[1]}@{_tick(dc.getTime())}")
+            guarded(op[1], lambda dc: dc.delay(op[2] * U), lambda dc: f"d{op[1]}@{_tick(dc.getTime())}")
         elif k == "look":
             pend = [index.get(id(dc), 10 ** 6) for dc in clock.getDelayedCalls()]
             if len(set(pend)) != len(pend):
@@ -114,7 +161,7 @@ def run_impl(case):
             out.append(f"L{_ids(pend)}/{_ids(act)}")
         elif k == "adv":
             out.append("A")
-            clock.advance(op[1] * TICK)
+            clock.advance(op[1] * U)
             out.append(f"a{_tick(clock.seconds())}")
         elif k == "pump":
             # pump(timings) = advance per element; a generator lets us observe around each advance():
@@ -122,14 +169,17 @@ def run_impl(case):
             def gen():
                 for n in op[1]:
                     out.append("A")
-                    yield n * TICK
+                    yield n * U
                     out.append(f"a{_tick(clock.seconds())}")
             clock.pump(gen())
         else:
             raise AssertionError(op)
 
-    for op in case["h"]:
-        do_op(op)
+    try:
+        for op in case["h"]:
+            do_op(op)
+    except _Abort:
+        out.append("!abort")
     return " ".join(out) if out else "-"
 
 
@@ -156,7 +206,19 @@ def _toks(items, acc):
     return acc
 
 
+def _reentrant(items, inside=False):
+    """does some scheduled callable advance/pump the clock itself?"""
+    for o in items:
+        if o[0] in ("adv", "pump") and inside:
+            return True
+        if o[0] == "cl" and _reentrant(o[2], True):
+            return True
+    return False
+
+
 def model_line(case):
+    if _reentrant(case["h"]):
+        return None         # the Lean model's scripts never advance the clock: oracle-only
     return " ".join(_toks(case["h"], []))
 
 
@@ -253,10 +315,8 @@ def _walk(case, out):
             p = _ids(pending())
             take(f"L{p}/{p}", "delayed-calls")
         elif k == "adv":
-            assert top
-            advance(op[1])
+            advance(op[1])      # top level, or re-entrantly from inside a running call: the same obligations
         elif k == "pump":
-            assert top
             for n in op[1]:
                 advance(n)
 
@@ -329,8 +389,8 @@ ADVS = [0, 1, 1, 2, 2, 3, 4, 5, 8, 20]
 
 
 class _Gen:
-    def __init__(self, rng, hostile):
-        self.rng, self.hostile, self.n = rng, hostile, 0
+    def __init__(self, rng, hostile, nest=False):
+        self.rng, self.hostile, self.n, self.nest = rng, hostile, 0, nest
 
     def t(self, pool):
         r = self.rng
@@ -347,6 +407,11 @@ class _Gen:
 
     def op(self, depth):
         r = self.rng
+        if depth > 0 and self.nest and r.random() < 0.16:
+            # the running call advances the clock itself (re-entrant advance / pump)
+            if r.random() < 0.8:
+                return ["adv", self.t(ADVS)]
+            return ["pump", [self.t(ADVS) for _ in range(r.choice([1, 2, 3]))]]
         x = r.random()
         if x < 0.42:
             d = self.t(DELAYS)
@@ -399,6 +464,57 @@ def _same_time_group(rng):
     return {"h": h}
 
 
+def _reentrant_case(rng):
+    """a running call advances the clock itself, then schedules / moves calls onto the new `now` (they are due at once and
+    belong to the advance still in progress), cancels or postpones calls the inner advance has or has not yet run"""
+    g = _Gen(rng, hostile=rng.random() < 0.2, nest=rng.random() < 0.5)
+    h = []
+    for _ in range(rng.choice([0, 1, 2, 3])):
+        h.append(["cl", rng.choice([1, 2, 3, 4, 6, 9]), g.script(1) if rng.random() < 0.3 else []])
+        g.n += 1
+    t0 = rng.choice([0, 1, 1, 2, 3])
+    outer = g.n
+    g.n += 1
+    pre = g.script(1) if rng.random() < 0.5 else []
+    n = rng.choice([0, 1, 2, 3, 5, 8])
+    post = []
+    for _ in range(rng.choice([1, 1, 2, 3])):
+        x = rng.random()
+        if x < 0.4:
+            post.append(["cl", rng.choice([0, 0, 0, 1]), g.script(2) if rng.random() < 0.3 else []])
+            g.n += 1
+        elif x < 0.6:
+            post.append(["r", g.ref(), rng.choice([0, 0, 1])])
+        elif x < 0.75:
+            post.append(["d", g.ref(), rng.choice([0, -1, -2, 1])])
+        elif x < 0.85:
+            post.append(["x", g.ref()])
+        else:
+            post.append(["look"])
+    inner = ["adv", n] if rng.random() < 0.8 else ["pump", [rng.choice([0, 1, 2]) for _ in range(rng.choice([1, 2, 3]))]]
+    h.append(["cl", t0, pre + [inner] + post])
+    if rng.random() < 0.5:
+        h.append(["cl", t0 + rng.choice([0, 1, 2, 5]), []])
+    h += [["look"], ["adv", t0], ["look"]]
+    if rng.random() < 0.7:
+        h += [["adv", rng.choice([1, 8, 20])], ["look"]]
+    return {"h": h}
+
+
+UNITS = [-40, -40, -30, -20, -10, 0, 10, 20, "int"]
+EPOCHS = [20, 33, 40, 50]
+
+
+def _dress(rng, case):
+    """choose what a tick is on the real clock (sub-nanosecond … days, or Python ints) and, independently, put the
+    clock at an epoch-like time first; the model line (ticks) is unaffected by the unit"""
+    if rng.random() < 0.32:
+        case["u"] = rng.choice(UNITS)
+    if rng.random() < 0.18:
+        case["h"].insert(0, ["adv", 2 ** rng.choice(EPOCHS)])
+    return case
+
+
 ALPHABET = [
     ["cl", 0, []], ["cl", 1, []], ["cl", 2, [["cl", 0, []]]], ["cl", 1, [["x", 1]]], ["cl", 1, [["r", 1, 0]]],
     ["cl", 1, [["d", 0, -1]]], ["cl", 1, [["d", 1, 1], ["x", 0]]],
@@ -443,6 +559,22 @@ def corpus():
         {"h": [["pump", [1, 2, 3]], ["cl", 1, []], ["pump", []], ["pump", [0, 1]], ["look"]]},
         # delay into the negative-delayed_time branch and back
         {"h": [["cl", 4, []], ["d", 0, 2], ["d", 0, -3], ["d", 0, -2], ["r", 0, 6], ["r", 0, 0], ["adv", 0], ["look"]]},
+        # sub-nanosecond ticks: a call one tick in the future is NOT due (no tolerance), and calls a tick apart are
+        # ordered by time, not by creation (no rounding of the sort key)  [mutants m06, m07]
+        {"u": -40, "h": [["cl", 2, []], ["adv", 1], ["look"], ["adv", 1], ["look"]]},
+        {"u": -40, "h": [["cl", 2, [["look"]]], ["cl", 1, [["look"]]], ["adv", 2], ["look"]]},
+        {"u": -20, "h": [["cl", 3, []], ["cl", 2, []], ["cl", 1, []], ["adv", 1], ["look"], ["pump", [1, 1]], ["look"]]},
+        # epoch-like clock time (2**30 s) with 1/8 s differences: no relative tolerance either  [mutant m04]
+        {"h": [["adv", 2 ** 33], ["cl", 3, []], ["cl", 1, []], ["adv", 1], ["look"], ["adv", 2], ["look"]]},
+        {"u": 0, "h": [["adv", 2 ** 50], ["cl", 2, []], ["adv", 1], ["look"], ["adv", 1], ["look"]]},
+        # Python ints everywhere
+        {"u": "int", "h": [["cl", 0, [["cl", 0, []], ["r", 1, 1]]], ["cl", 1, []], ["adv", 0], ["look"], ["adv", 1], ["look"]]},
+        # re-entrant advance from a running call; the call it then schedules for `now` is due at once and belongs to the
+        # outer advance, which is still in progress  [mutant m08]  (oracle-only: no model counterpart)
+        {"h": [["cl", 1, [["adv", 5], ["cl", 0, []], ["look"]]], ["adv", 1], ["look"]]},
+        {"h": [["cl", 1, [["cl", 2, [["look"]]], ["adv", 3], ["r", 1, 0], ["r", 2, 0], ["look"]]], ["cl", 3, []], ["cl", 9, []],
+               ["adv", 1], ["look"], ["adv", 10], ["look"]]},
+        {"h": [["cl", 0, [["pump", [0, 1, 2]], ["cl", 0, [["adv", 1], ["cl", 0, []]]]]], ["cl", 2, []], ["adv", 0], ["look"]]},
     ]
 
 
@@ -454,11 +586,18 @@ def generate(rng, tier):
     for k in range(n):
         r = rng.random()
         if r < 0.12:
-            yield _same_time_group(rng)
+            yield _dress(rng, _same_time_group(rng))
             continue
         g = _Gen(rng, hostile=(r > 0.62))
         size = rng.choice([3, 5, 8, 12, 20, 30]) if r < 0.95 else rng.choice([60, 100])
-        yield {"h": g.history(size)}
+        yield _dress(rng, {"h": g.history(size)})
+    # re-entrant advance/pump from inside running calls (oracle-only cases)
+    for k in range(300 if quick else 6000):
+        if k % 2:
+            yield _dress(rng, _reentrant_case(rng))
+        else:
+            g = _Gen(rng, hostile=(k % 10 == 0), nest=True)
+            yield _dress(rng, {"h": g.history(rng.choice([3, 5, 8, 12, 20]))})
 
 
 def search(rng, tier, disagreeing):
@@ -468,7 +607,10 @@ def search(rng, tier, disagreeing):
         g = _Gen(rng, hostile=(k % 2 == 0))
         yield {"h": g.history(rng.choice([4, 8, 16, 30]))}
     for k in range(2000):
-        yield _same_time_group(rng)
+        yield _dress(rng, _same_time_group(rng))
+    for k in range(4000):
+        g = _Gen(rng, hostile=(k % 4 == 0), nest=(k % 2 == 0))
+        yield _dress(rng, _reentrant_case(rng) if k % 3 == 0 else {"h": g.history(rng.choice([4, 8, 16]))})
 
 
 # ------------------------------------------------------------------------------------------
@@ -508,7 +650,10 @@ def tag(case, out):
             depth -= 1
     same = len(runs) != len(set(runs))
     nb = 0 if not runs else 1 if len(runs) < 3 else 2 if len(runs) < 8 else 3
-    return f"{''.join(sorted(kinds))}|d{_depth(case['h'])}|r{nb}|{'neg' if _neg(case['h']) else 'pos'}|{'tie' if same else 'uniq'}"
+    h = case["h"]
+    epoch = bool(h) and h[0][0] == "adv" and h[0][1] >= 2 ** 20
+    return (f"{''.join(sorted(kinds))}|d{_depth(h)}|r{nb}|{'neg' if _neg(h) else 'pos'}|{'tie' if same else 'uniq'}"
+            f"|u{case.get('u', -3)}{'|epoch' if epoch else ''}{'|reentrant' if _reentrant(h) else ''}")
 
 
 def nontrivial(case, out):
@@ -530,6 +675,8 @@ def _variants(items):
         elif o[0] in ("r", "d") and o[2] not in (0, 1, -1):
             yield items[:i] + [[o[0], o[1], 1 if o[2] > 0 else -1]] + items[i + 1:]
         elif o[0] == "adv" and o[1] not in (0, 1):
+            if abs(o[1]) > 2 ** 12:
+                yield items[:i] + [["adv", o[1] // 2]] + items[i + 1:]
             yield items[:i] + [["adv", o[1] - 1 if o[1] > 0 else o[1] + 1]] + items[i + 1:]
         elif o[0] == "pump":
             yield items[:i] + [["adv", n] for n in o[1]] + items[i + 1:]
@@ -538,5 +685,7 @@ def _variants(items):
 
 
 def shrink(case):
+    if "u" in case:
+        yield {"h": case["h"]}
     for v in _variants(case["h"]):
-        yield {"h": v}
+        yield {**case, "h": v}
